@@ -186,6 +186,100 @@ class SymList(object):
         return z3.ForAll([i], z3.Implies(z3.And(i >= lo, i < hi), pred(i, self.at(i))))
 
 
+class Rope(SymList):
+    """A list of symbolic length represented as a concatenation of slices  arr_q[frm_q : frm_q + cnt_q]  of known arrays.
+
+    Suited to code that builds a list by copying runs of items from other lists (append of an element of a list, extend by a
+    list): every operation keeps the representation exact and quantifier-free, element access is an if-chain over the
+    segments, and equality of two ropes is decided segment-wise after merging contiguous slices (linear arithmetic only)."""
+
+    def __init__(self, codec, segs=(), name='rope'):
+        self.codec = codec
+        self.name = sym.cur()._name(name)
+        self.segs = list(segs)
+
+    @property
+    def n(self):
+        t = z3.IntVal(0)
+        for _, _, c in self.segs:
+            t = t + c
+        return z3.simplify(t)
+
+    @property
+    def arr(self):
+        i = z3.Int('i!rope')
+        return z3.Lambda([i], self.at(i))
+
+    def at(self, i_expr):
+        base = z3.IntVal(0)
+        bounds = []
+        for a, f, c in self.segs:
+            bounds.append((z3.simplify(base + c), z3.Select(a, z3.simplify(f + i_expr - base))))
+            base = base + c
+        if not bounds:
+            return _default(self.codec.sort)
+        e = bounds[-1][1]
+        for hi, v in reversed(bounds[:-1]):
+            e = z3.If(i_expr < hi, v, e)
+        return e
+
+    def clone(self):
+        return Rope(self.codec, self.segs, 'copy')
+
+    def __setitem__(self, i, v):
+        raise Unsupported("item assignment on a rope")
+
+    def pop(self, i=-1):
+        raise Unsupported("pop on a rope")
+
+    def append(self, v):
+        e = self.codec.to_z3(v)
+        if z3.is_select(e):
+            self.segs.append((e.arg(0), e.arg(1), z3.IntVal(1)))
+        else:
+            self.segs.append((z3.K(z3.IntSort(), e), z3.IntVal(0), z3.IntVal(1)))
+
+    def extend(self, other):
+        if isinstance(other, Rope):
+            self.segs.extend(other.segs)
+        elif isinstance(other, SymList):
+            self.segs.append((other.arr, z3.IntVal(0), other.n))
+        elif isinstance(other, (list, tuple)):
+            for v in other:
+                self.append(v)
+        else:
+            raise Unsupported("extend of a rope by %r" % type(other).__name__)
+
+    def _slice(self, lo, hi, step):
+        return SymList(self.codec, self.arr, self.n, 'ropeflat')._slice(lo, hi, step)
+
+    @staticmethod
+    def normalise(segs):
+        """drop provably empty segments and merge provably contiguous slices of the same array (entailment under the current path)"""
+        p = sym.cur()
+        out = []
+        for a, f, c in segs:
+            c = z3.simplify(c)
+            if p.entails_ground(c == 0):
+                continue
+            if out and out[-1][0].eq(a) and p.entails_ground(out[-1][1] + out[-1][2] == f):
+                out[-1] = (a, out[-1][1], z3.simplify(out[-1][2] + c))
+            else:
+                out.append((a, z3.simplify(f), c))
+        return out
+
+    def equals(self, segs):
+        """z3 formula: this rope denotes the same list as the concatenation of `segs`"""
+        mine = Rope.normalise(self.segs)
+        theirs = Rope.normalise(segs)
+        if len(mine) == len(theirs) and all(x[0].eq(y[0]) for x, y in zip(mine, theirs)):
+            return z3.And(*([z3.BoolVal(True)] + [z3.Or(z3.And(x[2] == 0, y[2] == 0), z3.And(x[1] == y[1], x[2] == y[2]))
+                                                   for x, y in zip(mine, theirs)]))
+        # segment structures differ: extensional statement (the solver may or may not decide it)
+        other = Rope(self.codec, segs, 'exp')
+        return SymList.same_as(self, other)
+
+
 def as_symlist(x, codec):
     if isinstance(x, SymList):
         return x
@@ -225,3 +319,8 @@ class LoopSpec(object):
 
     def inv(self, it, fr, k):
         raise NotImplementedError
+
+    def exit_hints(self, it, fr):
+        """ground instances of facts that are already assumed under a quantifier (precondition, invariant), returned as z3
+        formulas; they are added to the path on loop exit to spare the solver the instantiation (sound: instances only)"""
+        return ()
